@@ -83,6 +83,30 @@ checks = {
    note="Trusted: the corpus K∪S reaches every section/constant kind and size class; crash = truncation at a byte boundary. Independent decoder (mc/bc) is used only to locate section boundaries.",
    tech="exhaustive crash-point enumeration (every prefix of every dump) on the real loader", ref="§4 C13"),
 }
+
+# additions of round 6 of the seeded changes (DESIGN.md 10.6), appended to the level texts
+ROUND6 = {
+ "C01": "Also: float literals of 1..21 significant digits in every form and int literals of every length in three bases; template-like strings; every compared run is followed by a later unrelated call after which its blocks, binding and error text must be unchanged.",
+ "C02": "Also a second, focused transition system (short-circuit operands that assign, reads behind assignments, dead operands that mention a name first) at top level, in blocks and behind 15..500 live locals.",
+ "C03": "Every compared run is followed by a later unrelated call after which its blocks, binding and error text must be unchanged.",
+ "C04": "Also 4..1000 bind statements in one run, Load into Progs that ran other bind programs, a bind right behind every two-byte slot operand.",
+ "C06": "Also single lines / lexical items of 100 KiB..1.1 MiB through the in-memory and file entry points.",
+ "C07": "Also several multi-page lexical items in a row, literals cut by a page boundary at every offset 4080..4100, inputs of 17 and 33 MiB.",
+ "C08": "Also a byte order mark in front, Unicode separators inside comments and strings, and: an error returned before Load into the same Prog keeps its text.",
+ "C09": "Also every size in between the boundaries (dense families: lengths 0..1300, counts 1..330, every int constant 0..70000), Load into a Prog that held and ran a renamed twin of the program, real pipes and positioned files / readers as load sources.",
+ "C11": "Also an input whose Close fails, syntax errors beyond line 64 / 128 with line ends still arriving, a regular file positioned behind a header.",
+ "C12": "Also lexical oddities right behind a syntax error in the pipeline and two callers running into the same limit at different places.",
+ "C13": "Also bad headers in front of 4..70 KiB more bytes through a file-like reader and a real file.",
+ "C14": "Also c14.longloop: a hand-assembled countdown loop of up to 15 million rounds (thorough 250 million) against the closed form.",
+ "C15": "Also c15.keys: one-byte key variants at every position, keys and field names of every length 1..80, nesting 1..40 levels, structs of 1..50 fields with tags.",
+ "C16": "The number of CPUs the library is told (runtime.GOMAXPROCS / NumCPU) is an enumerated answer of the harness: big slice bindings with two faulty blocks under every CPU answer and schedule.",
+ "C17": "Also a faulty statement behind 2..1000 faulty ones (it still gets its own diagnostic).",
+ "C18": "Also standard input of every kind with FILE omitted, BFILE /dev/null, BFILE names that begin with '-'.",
+ "C20": "Also comments ending in backslashes before every kind of line end.",
+}
+for _k, _v in ROUND6.items():
+    checks[_k]["text"] += " " + _v
+
 na = [
 ]
 import json as _j
